@@ -93,8 +93,10 @@ def _get_func_name_start_end(
 def _iter_identifier_mentions(root: ast.AST) -> Iterable[Tuple[ast.AST, str]]:
     """Iterate over every place where an identifier is written, as (node, identifier).
 
-    Function and class definitions that are members of a class are not included: their names
-    are only reachable as attributes, and attributes are included."""
+    Function and class definitions that are members of a class are only included when their
+    identifier is also written as a plain name somewhere. Otherwise they are only reachable as
+    attributes, and attributes are included."""
+    plain_names = {node.id for node in core.walk(root, ast.Name)}
     class_members = set()
     for classdef in core.walk(root, ast.ClassDef):
         children = list(classdef.body)
@@ -109,7 +111,7 @@ def _iter_identifier_mentions(root: ast.AST) -> Iterable[Tuple[ast.AST, str]]:
         if isinstance(node, ast.Name):
             yield node, node.id
         elif isinstance(node, (ast.FunctionDef, ast.AsyncFunctionDef, ast.ClassDef)):
-            if node not in class_members:
+            if node not in class_members or node.name in plain_names:
                 yield node, node.name
         elif isinstance(node, ast.arg):
             yield node, node.arg
